@@ -71,4 +71,9 @@ CHECKS = {
         technique='A/B differential: live designer vs designer rebuilt by dump -> fresh instance -> load at Hypothesis-generated restart masks, over three serialization paths',
         text='For grid, shuffled grid, quasi-random, eagle, NSGA-II and CMA-ES a live instance and one rebuilt (dump, fresh instance with the same constructor arguments, load) after the steps of a generated restart mask receive identical generated histories (batches 1..5, ties, infeasible and pending trials); the dump travels as a Metadata object, as StudyConfig proto bytes, or through a real service on a re-created SQLite file; time.time is patched to changing values. Deterministic designers: suggestions, suggestion metadata and dump() equal at every step. NSGA-II: public population arrays, phase and trials-seen counter via an injected recording Mutation / adaptation_callable. CMA-ES: dumped state (incl. PRNG key) and suggestions. Service clause: GRID / SHUFFLED_GRID / QUASI_RANDOM / EAGLE hosted with the default policy factory across servicer re-creations; suggestions and saved state equal a live designer\'s and the first G<=48 grid suggestions are distinct and cover the independently computed grid.',
         note='run A (the live instance) is the reference; NSGA-II sampler RNG is not part of the documented state; flat spaces; bounds tamed to what the designers accept'),
+    'C15': dict(
+        category=EXPL,
+        technique='Hypothesis search over spaces x 6 converter classes x options x data; round-trip, 50-digit reference scaling and independent membership oracle',
+        text='Flat spaces x {DefaultTrialConverter, TrialToArrayConverter, TrialToModelInputConverter, TrialToContinuousAndCategoricalConverter, PaddedTrialToArrayConverter, ProblemAndTrialsScaler} x options (scale, onehot, pad_oovs, max_discrete_indices 0/10/inf, float32/64, clipping, padding schedules). Encode then decode is exact for INTEGER / DISCRETE / CATEGORICAL and within a condition-scaled ulp bound for DOUBLE; scaled features are compared with a 50-digit decimal reference of the LINEAR / LOG / REVERSE_LOG formulas (endpoints, midpoints, monotone); one-hot blocks and index positions exact; arbitrary arrays of the published spec (out of range, extremes, degenerate one-hot blocks, OOV indices) decode to members per the independent membership oracle of harness/spaces.py; objective labels round-trip under both sign conventions; inputs are not mutated.',
+        note='trusts harness/spaces.member, the decimal reference and tolerance model in harness/c15_model.py, carrier dtype of returned arrays, bounds clamped to 1e+-30 for float32 carriers, strictly positive LOG ranges; flat spaces only'),
 }
